@@ -12,7 +12,7 @@ tested, which dict is filled from which list, what is assigned where … are tak
 Python -> here
 * local variables = the record `Locals` (one typed field per variable; the translator refuses an unknown name);
   a variable is a lens `Var`.
-* PURE expressions (`PEx`: names, attribute reads, `is None`, `is not None`, `is False`, `and`, `in`, `[]`, `{}`,
+* PURE expressions (`PEx`: names, attribute reads, `is None`, `is not None`, `is False`, `and`, `in`, `[]`, `{}`, `a + b` of two list objects,
   `id(·)`, 3-argument `getattr` with default `None`) cannot raise and do not change the state;
   EFFECTFUL expressions (`Ex`: dict subscript = may raise KeyError, `copy.deepcopy`, `read_neuroml2_file`, the call of
   `_deepcopy_into`) return a value and a new state or raise.
@@ -30,6 +30,7 @@ structure Locals where
   nml2_doc : Val := .none
   overwrite : Bool := true
   newdoc : Val := .none
+  all_cells : List Val := []
   referenced_ids : List Val := []
   cell : Val := .none
   ext_morphs : Dict := []
@@ -61,6 +62,7 @@ namespace V
 def nml2_doc : Var Val := ⟨(·.nml2_doc), fun v l => { l with nml2_doc := v }⟩
 def overwrite : Var Bool := ⟨(·.overwrite), fun v l => { l with overwrite := v }⟩
 def newdoc : Var Val := ⟨(·.newdoc), fun v l => { l with newdoc := v }⟩
+def all_cells : Var (List Val) := ⟨(·.all_cells), fun v l => { l with all_cells := v }⟩
 def referenced_ids : Var (List Val) := ⟨(·.referenced_ids), fun v l => { l with referenced_ids := v }⟩
 def cell : Var Val := ⟨(·.cell), fun v l => { l with cell := v }⟩
 def ext_morphs : Var Dict := ⟨(·.ext_morphs), fun v l => { l with ext_morphs := v }⟩
@@ -117,6 +119,8 @@ def emptyList : PEx (List Val) := fun _ => []
 def emptyDict : PEx Dict := fun _ => []
 /-- `id(e)` -/
 def idOf (e : PEx Val) : PEx Val := e
+/-- `a + b` of two list objects: a new Python list holding the items of `a` followed by those of `b` -/
+def concatItems (a b : PEx Val) : PEx (List Val) := fun σ => listItems σ.heap (a σ) ++ listItems σ.heap (b σ)
 /-- the items a `for` loop over the list object `l` visits -/
 def iter (l : PEx Val) : PEx (List Val) := fun σ => listItems σ.heap (l σ)
 end P
